@@ -116,6 +116,9 @@ class VerifEnv:
         cur = self.current
         if cur is None or I.depth == 0:
             return None
+        for ent in cur.modular:
+            if ent.startswith('id:') and self.contracts.get(ent[3:]) is not None and self.contracts[ent[3:]].target == ident:
+                return self.contracts[ent[3:]]
         if ident in cur.modular:
             c = self.by_target.get(ident)
             if c is None:
